@@ -643,7 +643,8 @@ func callReflectExt(fr *frame, name string, ext externalFn, args []value) (res v
 	defer func() {
 		if r := recover(); r != nil {
 			if _, ok := r.(runtime.Error); ok {
-				panic(targetPanic{iface{fr.i.runtimeErrorString, "reflect: call of " + name + " on a Value of the wrong kind"}})
+				// (a *reflect.ValueError in the real package: an error, not a runtime.Error)
+				panic(targetPanic{iface{types.Typ[types.String], "reflect: call of " + name + " on a Value of the wrong kind"}})
 			}
 			panic(r)
 		}
